@@ -15,6 +15,8 @@ import (
 	"strings"
 
 	sdk "github.com/cosmos/cosmos-sdk/types"
+	bankkeeper "github.com/cosmos/cosmos-sdk/x/bank/keeper"
+	banktypes "github.com/cosmos/cosmos-sdk/x/bank/types"
 
 	"github.com/kava-labs/kava/app"
 	swapkeeper "github.com/kava-labs/kava/x/swap/keeper"
@@ -32,7 +34,7 @@ const (
 var kAllowed = [][2]int{{0, 2}, {1, 2}}
 
 type kOp struct {
-	Kind   string `json:"kind"` // deposit | withdraw | swapin | swapout
+	Kind   string `json:"kind"` // deposit | withdraw | swapin | swapout | banksend (plain MsgSend of A1 of D1 to the swap module account)
 	Who    int    `json:"who"`
 	D1     int    `json:"d1"`
 	A1     string `json:"a1"`
@@ -157,6 +159,11 @@ func (w *kWorld) exec(op kOp) (Class, error) {
 	return Atomically(w.ctx, func(ctx sdk.Context) error {
 		k := w.sk
 		switch op.Kind {
+		case "banksend":
+			// as a transaction would: the bank msg server, which checks BlockedAddr
+			_, err := bankkeeper.NewMsgServerImpl(w.tApp.GetBankKeeper()).Send(sdk.WrapSDKContext(ctx),
+				&banktypes.MsgSend{FromAddress: w.addrs[op.Who].String(), ToAddress: w.addrs[kMod].String(), Amount: sdk.NewCoins(kCoin(op.D1, op.A1))})
+			return err
 		case "deposit":
 			return k.Deposit(ctx, w.addrs[op.Who], kCoin(op.D1, op.A1), kCoin(op.D2, op.A2), decM(bigS(op.Slip)))
 		case "withdraw":
@@ -254,6 +261,11 @@ func kSameState(a, b *kSnap) string {
 
 // kMonitor states C07 on the implementation's observable state after one operation.
 func kMonitor(w *kWorld, op kOp, cls Class, err error, before, after *kSnap, trip *kTrip) (pred, sig, detail string) {
+	// the module account takes coins only through the keeper: a plain transfer to it must be refused
+	if op.Kind == "banksend" && cls == ClassOk {
+		return "module-account-refuses-direct-transfers", "direct-send-to-module-accepted",
+			fmt.Sprintf("MsgSend of %s%s to the swap module account accepted: module %s -> %s", op.A1, kDenoms[op.D1], before.bal[kMod][op.D1], after.bal[kMod][op.D1])
+	}
 	// custody: module balance = sum of reserves, per denom, and nothing else
 	if after.extra != "" {
 		return "records-well-formed", "unexpected-record", after.extra
@@ -306,6 +318,9 @@ func kMonitor(w *kWorld, op kOp, cls Class, err error, before, after *kSnap, tri
 		if what := kSameState(before, after); what != "" {
 			return "failed-op-no-change", "failed-op-changed-state", what
 		}
+		return "", "", ""
+	}
+	if op.Kind == "banksend" {
 		return "", "", ""
 	}
 	x, y := sortPair(op.D1, op.D2)
@@ -480,6 +495,8 @@ func kCoqOp(op kOp) string {
 		sl = Z(bigS(op.Slip))
 	}
 	switch op.Kind {
+	case "banksend":
+		return fmt.Sprintf("BankSend %s %s %s", Nat(op.Who), Nat(op.D1), Z(bigS(op.A1)))
 	case "deposit":
 		return fmt.Sprintf("Deposit %s %s %s %s %s %s", Nat(op.Who), Nat(op.D1), Z(bigS(op.A1)), Nat(op.D2), Z(bigS(op.A2)), sl)
 	case "withdraw":
@@ -635,6 +652,22 @@ func kAmount(r *Rng, balance, reserve *big.Int) *big.Int {
 
 func kGenOp(r *Rng, w *kWorld, s *kSnap, trip *kTrip) kOp {
 	op := kOp{Who: r.Intn(kNUsers)}
+	if r.Chance(1, 40) {
+		// a plain bank transfer to the module account, mostly affordable (so that only the blocked-address rule refuses it)
+		op.Kind, op.D1, op.D2, op.A2 = "banksend", r.Intn(kNDen), 0, "0"
+		amt := kAmount(r, s.bal[op.Who][op.D1], bi(0))
+		if amt.Cmp(s.bal[op.Who][op.D1]) > 0 && s.bal[op.Who][op.D1].Sign() > 0 && r.Chance(9, 10) {
+			amt = new(big.Int).Quo(add(s.bal[op.Who][op.D1], bi(1)), bi(int64(1+r.Intn(3))))
+		}
+		if amt.Sign() <= 0 {
+			amt = bi(1)
+		}
+		if amt.BitLen() > 255 {
+			amt = new(big.Int).Set(two255)
+		}
+		op.A1 = amt.String()
+		return op
+	}
 	// the pool: mostly an allowed one
 	var x, y int
 	switch r.Pick(48, 48, 2, 2) {
@@ -936,6 +969,12 @@ func kSplits(w *kWorld, op kOp, cls Class, err error, before, after *kSnap, cnt 
 		mark("panic")
 		return out
 	case ClassErr:
+		if op.Kind == "banksend" {
+			if bigS(op.A1).Cmp(before.bal[op.Who][op.D1]) <= 0 {
+				mark("banksend:refused-though-affordable")
+			}
+			return nil
+		}
 		k := kErrKind(err)
 		if k == "slippage" || k == "insufficient-liquidity" || k == "insufficient-funds" {
 			mark(op.Kind + ":refused:" + k)
@@ -1013,7 +1052,7 @@ var kAllSplits = []string{
 	"deposit:existing-depositor", "deposit:new-depositor", "deposit:denoms-named-in-reverse",
 	"withdraw:pool-deleted", "withdraw:depositor-exits", "withdraw:partial",
 	"swapin:A-for-B", "swapin:B-for-A", "swapout:A-for-exact-B", "swapout:B-for-exact-A",
-	"two-pools-live", "panic",
+	"two-pools-live", "panic", "banksend:refused-though-affordable",
 	"deposit:refused:slippage", "deposit:refused:insufficient-liquidity", "deposit:refused:insufficient-funds", "deposit:refused:zero-shares",
 	"withdraw:refused:slippage", "withdraw:refused:insufficient-liquidity",
 	"swapin:refused:slippage", "swapin:refused:insufficient-liquidity", "swapin:refused:insufficient-funds",
